@@ -194,11 +194,8 @@ func Restore(walletPath, mnemonic string, mintsToRestore []string) (uint64, erro
 				pendingProofs := make(cashu.Proofs, 0, len(proofStateResponse.States))
 
 				for _, proofState := range proofStateResponse.States {
-					// NUT-07 can also respond with witness data. Since not supporting this yet, ignore proofs that have witness
-					if len(proofState.Witness) > 0 {
-						break
-					}
-
+					// NUT-07 can also respond with witness data (whoever spent the proof may have
+					// attached one). It says nothing about the other proofs of the batch.
 					// save unspent proofs
 					if proofState.State == nut07.Unspent {
 						proof := proofs[proofState.Y]
